@@ -6,7 +6,7 @@ A VC is `pre /\\ pc /\\ not goal`; `unsat` = discharged, `sat` = refuted (model)
 import os, subprocess, tempfile, time
 import z3
 
-QUICK_MS = int(os.environ.get('PYVC_VC_MS', '10000'))
+QUICK_MS = int(os.environ.get('PYVC_VC_MS', '20000'))
 THOROUGH_MS = 60000
 
 
